@@ -7,6 +7,7 @@ CONSTANTS
   NRand = 40
   KeepHist = FALSE
   KF_PowGrandparentBits = FALSE
+  Sides = {"slow", "short"}
 INVARIANTS TypeOK ChainPrescribed RetargetOnlyAtGap RetargetBounded RetargetBoundedLegacy RetargetDirection AcceptOnlyEntitled CompactRoundTrip
 VIEW View
 CHECK_DEADLOCK FALSE
